@@ -1643,7 +1643,15 @@ func run(c *lib.Ctx) {
 			}
 		}
 		for _, u := range r.Unexplained {
-			c.Inconclusive("history %d could not be executed and the monitor cannot explain it: %s", j.h.Idx, u)
+			// a failed commit is not itself a violation of C05 (the statement speaks about reads of retained states, which
+			// explainCommitFailure re-checked and found intact before it gave up explaining): the history ends there, the
+			// failure is counted and sampled in the evidence as an adjacent observation, and the verdict stays with the
+			// retained-state oracle
+			c.Count("commit_failures_with_intact_retained_states_not_explained", 1)
+			if c.SeenCount("adjacent_samples") < 4 {
+				c.Seen("adjacent_samples", u)
+				adjacentSamples = append(adjacentSamples, map[string]any{"history_idx": j.h.Idx, "cfg": j.h.Cfg, "what": "commit failed, retained states intact, cause not identified by the monitor: " + u})
+			}
 		}
 		if len(r.Viols) == 0 {
 			continue
